@@ -126,7 +126,7 @@ func (f *Formatter) formatBlockStatement(stmt *ast.BlockStatement) string {
 	lines := Lines{}
 
 	for _, s := range stmt.Statements {
-		if s.GetMeta().PreviousEmptyLines > 0 && len(lines) > 0 {
+		if followsEmptyLine(s.GetMeta()) && len(lines) > 0 {
 			group.Lines = append(group.Lines, lines)
 			lines = Lines{}
 		}
@@ -412,7 +412,7 @@ func (f *Formatter) formatCaseSectionStatements(cs *ast.CaseStatement) string {
 		if !f.conf.IndentCaseLabels {
 			meta.Nest--
 		}
-		if meta.PreviousEmptyLines > 0 {
+		if followsEmptyLine(meta) {
 			group.Lines = append(group.Lines, lines)
 			lines = Lines{}
 		}
